@@ -89,7 +89,8 @@ def design_with(formula, frame, **namespace):
 def judge_levels(ctx, case):
     """case: {"kind":"levels","fn":"C"|"T"|"S","perm":[...level positions...],"n":n,"int":bool,"intercept":bool,"ref":pos|None}"""
     n, perm, fn = case["n"], case["perm"], case["fn"]
-    spec = frames.factorial_spec({"f": n} if not case["int"] else {"k": n}, 3, seed=1)
+    spec = frames.factorial_spec({"f": n} if not case["int"] else {"k": n}, 3, seed=1 + case.get("dtype_seed", 0),
+                                 catkinds={"f": case.get("dtype", "str")})
     frame = frames.build(spec)
     var = "k" if case["int"] else "f"
     present = sorted(set(frame[var].tolist()))
@@ -146,6 +147,17 @@ def judge_levels(ctx, case):
         ctx.fail("options", full, f"{formula!r} with lv={lv}: labels {labels}, expected {want_labels}", "labels")
     elif x.shape != want.shape or not np.array_equal(x, want):
         ctx.fail("options", full, f"{formula!r} with lv={lv}: columns differ from the coding the options describe", "matrix")
+    else:
+        # the options are honoured on new data as well: rows of the training frame in another order
+        rows = list(range(len(frame)))[::-1][: max(2, len(frame) // 2)]
+        try:
+            with core.Guard():
+                x2 = np.asarray(dm.common.evaluate_new_data(frame.iloc[rows].reset_index(drop=True)).design_matrix, dtype=float)
+        except Exception as e:  # pylint: disable=broad-except
+            ctx.fail("options", full, f"{formula!r} with lv={lv}: evaluate_new_data raised {type(e).__name__}: {e}", "new_data:" + core.exc_key(e))
+            return
+        if x2.shape != want[rows].shape or not np.array_equal(x2, want[rows]):
+            ctx.fail("options", full, f"{formula!r} with lv={lv}: on new data the columns differ from the coding the options describe", "new_data")
 
 
 def judge_badref(ctx, case):
@@ -306,6 +318,10 @@ def _levels_cases(maxn):
                 for ic in (True, False):
                     for is_int in (False, True):
                         yield {"kind": "levels", "fn": fn, "perm": list(perm), "n": n, "int": is_int, "intercept": ic, "ref": None}
+                        if not is_int and n <= 3:
+                            for dtype, ds in (("cat", 0), ("cat", 1), ("ordcat", 0)):
+                                yield {"kind": "levels", "fn": fn, "perm": list(perm), "n": n, "int": False, "intercept": ic, "ref": None,
+                                       "dtype": dtype, "dtype_seed": ds}
                         if n >= 3 and perm[0] < perm[1]:
                             yield {"kind": "levels", "fn": fn, "perm": list(perm), "n": n, "int": is_int, "intercept": ic, "ref": 1}
     for f in ["y ~ T(f, 'zz')", "y ~ S(f, 'zz')", "y ~ C(f, Treatment('zz'))", "y ~ C(f, Sum('zz'))"]:
